@@ -318,7 +318,16 @@ static void cmd_tf(const kv_t& kv) {
     fprintf(out, "{\"rv\":%d,\"out\":\"%s\",\"err\":\"%s\",\"exc\":\"%s\"}\n", rv, jesc(so).c_str(), jesc(se).c_str(), jesc(exc).c_str());
 }
 
-CTransactionRef parse_tx(const char* p);
+// (the harness decodes these transactions itself: it must not depend on an internal helper of the tree whose signature may change)
+static CTransactionRef vh_parse_tx(const char* p) {
+    std::vector<unsigned char> txData;
+    if (!TryHex(p, txData)) return nullptr;
+    CDataStream ss(txData, SER_DISK, 0);
+    CMutableTransaction mtx;
+    UnserializeTransaction(mtx, ss);
+    if (!ss.empty()) return nullptr;
+    return MakeTransactionRef(CTransaction(mtx));
+}
 static void cmd_tx(const kv_t& kv) {
     std::string h = unhx_s(get(kv, "text"));
     std::ostringstream o;
@@ -355,7 +364,7 @@ static std::vector<CTxOut> parse_spent(const std::string& s) {
 // digest-level access: SignatureHash / SignatureHashSchnorr called directly
 static void cmd_sighash(const kv_t& kv) {
     try {
-        CTransactionRef tx = parse_tx(get(kv, "tx").c_str());
+        CTransactionRef tx = vh_parse_tx(get(kv, "tx").c_str());
         if (!tx) { fprintf(out, "{\"ok\":0}\n"); return; }
         unsigned idx = geti(kv, "idx"); int ht = geti(kv, "ht"); int sv = geti(kv, "sv");
         if (sv == 0 || sv == 1) {
@@ -378,7 +387,7 @@ static void cmd_sighash(const kv_t& kv) {
 // direct InterpreterEnv with a checker that knows all spent outputs (multi-input taproot contexts)
 static void cmd_direct(const kv_t& kv) {
     try {
-        CTransactionRef tx = parse_tx(get(kv, "tx").c_str());
+        CTransactionRef tx = vh_parse_tx(get(kv, "tx").c_str());
         if (!tx) { fprintf(out, "{\"refused\":\"tx\"}\n"); return; }
         unsigned idx = geti(kv, "idx");
         auto spent = parse_spent(get(kv, "spent"));
